@@ -27,14 +27,14 @@ import (
 type Case struct {
 	ID       int             `json:"id"`
 	GRL      string          `json:"grl"`
-	RulesJS  json.RawMessage `json:"rules"`   // program AST for the monitor
-	Counted  json.RawMessage `json:"counted"` // the one counted method atom of the program, or {"k":"none"}
+	RulesJS  json.RawMessage `json:"rules"`            // program AST for the monitor
+	Counted  json.RawMessage `json:"counted"`          // the one counted method atom of the program, or {"k":"none"}
 	Stream   []byte          `json:"stream,omitempty"` // variant reloaded-cut: the (truncated) stream itself, loaded as is
-	Other    *World          `json:"other"`   // facts an earlier instance of the same library is run on (variant second)
-	Removed  []string        `json:"removed"` // rules removed from the library before instantiation
-	Parts    []string        `json:"parts"`   // the same rules split over several resources (variant multi)
-	Variant  string          `json:"variant"` // fresh | reloaded | reloaded2 | second | multi
-	Calls    []CallCfg       `json:"calls"`   // calls made on the one instance, in order
+	Other    *World          `json:"other"`            // facts an earlier instance of the same library is run on (variant second)
+	Removed  []string        `json:"removed"`          // rules removed from the library before instantiation
+	Parts    []string        `json:"parts"`            // the same rules split over several resources (variant multi)
+	Variant  string          `json:"variant"`          // fresh | reloaded | reloaded2 | second | multi
+	Calls    []CallCfg       `json:"calls"`            // calls made on the one instance, in order
 	Profile  string          `json:"profile"`
 	Listener int             `json:"listeners"` // number of listeners (0 = none: no trace but result checked)
 }
